@@ -43,7 +43,10 @@ CONSTANTS
   SecretRels, \* subset of {"same", "diff"}: does the importer hold the minted secret
   Bug
 
-AddrShapes  == <<"plain", "params", "hash", "ipv6", "sharedport">>
+\* "pctescape": percent-escaped parameter values (alias a%2eb, socket name x%3dy,
+\* a CCB contact with an escaped '#'); "pctverbs": a lone '%', "%%", and escapes
+\* that happen to spell printf verbs - the address is DATA wherever it travels
+AddrShapes  == <<"plain", "params", "hash", "ipv6", "sharedport", "pctescape", "pctverbs">>
 Bools       == <<TRUE, FALSE>>
 CipherLists == << <<"AES">>, <<"AES", "BLOWFISH">>, <<"AESGCM", "BLOWFISH", "3DES">> >>
 \* command lists, with the boundary command integers: 0 (UPDATE_STARTD_AD is a
@@ -59,14 +62,14 @@ Cfg(a, e, i, c, m, l, v, d) ==
 
 AllConfigs ==
   { Cfg(AddrShapes[a], Bools[e], Bools[i], CipherLists[c], CmdLists[m], Lifetimes[l], VerForms[v], Dirs[d]) :
-      a \in 1..5, e \in 1..2, i \in 1..2, c \in 1..3, m \in 1..5, l \in 1..3, v \in 1..3, d \in 1..2 }
+      a \in 1..7, e \in 1..2, i \in 1..2, c \in 1..3, m \in 1..5, l \in 1..3, v \in 1..3, d \in 1..2 }
 
 \* pairwise cover: orthogonal array OA(49, 8, 7, 2) - column k of row (i, j) is
 \* (i + k*j) mod 7 for k = 0..6 and j for the last column - with each column
 \* folded onto the number of levels of its dimension (folding keeps every pair).
 Fold(x, n) == ((x % 7) % n) + 1
 Row(i, j) ==
-  Cfg(AddrShapes[Fold(i, 5)], Bools[Fold(i + j, 2)], Bools[Fold(i + (2 * j), 2)],
+  Cfg(AddrShapes[Fold(i, 7)], Bools[Fold(i + j, 2)], Bools[Fold(i + (2 * j), 2)],
       CipherLists[Fold(i + (3 * j), 3)], CmdLists[Fold(i + (4 * j), 5)],
       Lifetimes[Fold(i + (5 * j), 3)], VerForms[Fold(i + (6 * j), 3)], Dirs[(j % 2) + 1])
 
@@ -75,9 +78,9 @@ Pairwise == { Row(i, j) : i \in 0..6, j \in 0..6 }
 \* every combination of the dimensions that shape the TEXT of the claim id
 GrammarEdges ==
   { Cfg(AddrShapes[a], TRUE, TRUE, CipherLists[c], CmdLists[m], 3600, VerForms[v], Dirs[((a + c + m + v) % 2) + 1]) :
-      a \in 1..5, c \in 1..3, m \in 1..5, v \in 1..3 }
+      a \in 1..7, c \in 1..3, m \in 1..5, v \in 1..3 }
   \cup { Cfg(AddrShapes[a], Bools[e], Bools[e], <<"AES">>, << >>, Lifetimes[l], "none", Dirs[d]) :
-      a \in 1..5, e \in 1..2, l \in 1..3, d \in 1..2 }
+      a \in 1..7, e \in 1..2, l \in 1..3, d \in 1..2 }
 
 Configs == IF Tier = "all" THEN AllConfigs ELSE Pairwise \cup GrammarEdges
 
@@ -91,6 +94,8 @@ AddrText(a) ==
     [] a = "params" -> <<"<", "ip4:port?addrs", "=", "ip4-port&alias", "=", "host&noUDP", ">">>
     [] a = "hash"   -> <<"<", "ip4:port?sock", "=", "startd_1_ab", "#", "cd&noUDP", ">">>
     [] a = "ipv6"   -> <<"<", "[", "::1", "]", ":port?noUDP", ">">>
+    [] a = "pctescape" -> <<"<", "ip4:port?alias", "=", "a%2eb&sock", "=", "x%3dy&CCBID", "=", "ip4-port%23id7&noUDP", ">">>
+    [] a = "pctverbs"  -> <<"<", "ip4:port?note", "=", "50%&a", "=", "%%&b", "=", "%s&c", "=", "%d&d", "=", "%!&e", "=", "%v", ">">>
     [] OTHER        -> <<"<", "ip4:port?sock", "=", "startd_1_abcd&addrs", "=", "ip4-port+", "[", "--1", "]", "-port&noUDP", ">">>
 
 Join(list, d) ==           \* atoms separated by the delimiter d
